@@ -22,6 +22,12 @@ LABEL_FAMILIES = {
     "sparse": lambda n: [10, 3, 7, 5, 12, 1, 8][:n],          # order-reversing in places
     "str": lambda n: ["b", "a", "d", "c", "f", "e", "g"][:n],
     "zero": lambda n: list(range(0, n)),
+    # labels that are equal-but-not-identical objects when re-created (ints outside the small-int cache,
+    # strings built at run time), labels whose hashes collide (hash(-1) == hash(-2)) and whose set
+    # iteration order is not ascending, strings of mixed length
+    "big": lambda n: [1000, 300, 70000, 5000, 2 ** 40 + 1, 999, 800][:n],
+    "neg": lambda n: [-1, -2, 13, 8, -7, 21, 10][:n],
+    "long": lambda n: ["node-b", "node-a", "nd-d", "n-c", "node-f", "ee", "g-g"][:n],
 }
 
 UNSUPPORTED = {
@@ -40,17 +46,38 @@ def quiet():
             yield
 
 
+NESTED = {"attributes": {"age": 3, "status": [1, 2]}}      # the concrete value of the abstract value "2"
+_flip = [0]
+
+
+def _val_in(v):
+    if v == "2":
+        # the same nested value, built with a different key insertion order every other time
+        _flip[0] ^= 1
+        inner = {"age": 3, "status": [1, 2]} if _flip[0] else {"status": [1, 2], "age": 3}
+        return {"attributes": inner}
+    if isinstance(v, str) and v.lstrip("-").isdigit():
+        return int(v)
+    return v
+
+
 def md_in(md):
-    """spec metadata (dict of str->"0"/"1") -> a fresh python dict with int values"""
+    """spec metadata (dict of str -> "0"/"1"/"2") -> a fresh python dict: ints 0 / 1, a nested dict for "2" """
     if md in ([], None):
         return {}
-    return {k: int(v) if isinstance(v, str) and v.lstrip("-").isdigit() else v for k, v in md.items()}
+    return {k: _val_in(v) for k, v in md.items()}
+
+
+def _val_out(v):
+    if isinstance(v, dict):
+        return "2" if v == NESTED else "dict:" + str(sorted(v.items(), key=str))
+    return str(v)
 
 
 def md_out(md):
     if not isinstance(md, dict):
         return {"__not_a_dict__": str(type(md).__name__)}
-    return {str(k): str(v) for k, v in md.items()}
+    return {str(k): _val_out(v) for k, v in md.items()}
 
 
 class Binding:
@@ -63,7 +90,16 @@ class Binding:
 
     # -- labels -----------------------------------------------------------
     def lab(self, i):
-        return self.labels[i - 1]
+        """the label of spec node i, as a FRESH object (equal to, but not the same object as, the one
+        passed in earlier calls) so that identity-based comparisons in the code under test show"""
+        v = self.labels[i - 1]
+        if isinstance(v, bool):
+            return v
+        if isinstance(v, int):
+            return int(str(v))
+        if isinstance(v, str):
+            return "".join(list(v))
+        return v
 
     def unlab(self, x):
         try:
@@ -246,11 +282,11 @@ class Binding:
         elif name == "set_h_md":
             obj.set_hypergraph_metadata(md_in(op["md"]))
         elif name == "set_attr_node":
-            obj.set_attr_to_node_metadata(self.lab(op["n"]), op["f"], int(op["v"]))
+            obj.set_attr_to_node_metadata(self.lab(op["n"]), op["f"], _val_in(op["v"]))
         elif name == "set_attr_edge":
-            obj.set_attr_to_edge_metadata(*self.key_args(op["k"]), op["f"], int(op["v"]))
+            obj.set_attr_to_edge_metadata(*self.key_args(op["k"]), op["f"], _val_in(op["v"]))
         elif name == "set_attr_h":
-            obj.set_attr_to_hypergraph_metadata(op["f"], int(op["v"]))
+            obj.set_attr_to_hypergraph_metadata(op["f"], _val_in(op["v"]))
         elif name == "del_attr_node":
             obj.remove_attr_from_node_metadata(self.lab(op["n"]), op["f"])
         elif name == "del_attr_edge":
